@@ -53,8 +53,11 @@ Section TleIncl.
       H3 : gen_init_guard3 _ _ _ _ _ _ _ < _ |- _ =>
         unfold gen_oe_inclination in H1, H2;
         unfold gen_init_guard3, gen_sgp4_cosIO, gen_oe_inclination in H3;
-        rewrite ?half_angle_1pcos in H3;
-        pose proof (tle_incl_guard k H1 H2); lra
+        half_angle_in H3 (deg2rad (IZR k / 10000));
+        pose proof (tle_incl_guard k H1 H2) as HG;
+        try (replace (2 * ((1 + cos (deg2rad (IZR k / 10000))) / 2)) with (1 + cos (deg2rad (IZR k / 10000))) in H3 by field);
+        try (replace ((1 + cos (deg2rad (IZR k / 10000))) / 2 * 2) with (1 + cos (deg2rad (IZR k / 10000))) in H3 by field);
+        lra
     end.
 
   Lemma tle_incl_not_leaf0 : GK gen_init_outcome <> InitMode NearNorm 0.
